@@ -122,6 +122,9 @@ func vfOne(c *kit.Case, pl vfPlan, tag string) string {
 				o.ctxErr = "nil"
 			}
 		case "wait-ctx":
+			if eff := vfEff(pl); !o.seenOk || o.seenDl.After(o.t1.Add(eff)) {
+				break // no deadline / a deadline later than configured is reported by the oracle: do not sit it out
+			}
 			t := time.NewTimer(30 * time.Second)
 			select {
 			case <-ctx.Done():
